@@ -1452,6 +1452,8 @@ pub fn draw_cfg(rng: &mut Rng, prop: Prop, thorough: bool, kind: Kind) -> RunCfg
 const CURATED_PATHS: &[&str] = &[
 	"", "/", "./", "/./", ".", "/.", "..", "/..", "./x", "/./x", ".//x", "/.//x", "./a:b", "/./a:b", "//", "///", "//x", "a/", "a//", "/a/./", "a/./", "a/..", "a/../", "/a/..",
 	"a/../b:c", "/..//x", "a/..//x", "x/./", "x/../..", "a..", "...", "a/b..", "./.", "/././", "./:", ":", "a:b/..", "./a:b/..",
+	// nested-URI shapes: a first segment ending in ':' followed by an empty segment
+	":://", "x:://y", "3d://m/t", "my_app://open/page", "%41://x", "https://h/x", "a:/b", "a:b//c", "@://", "1:",
 ];
 
 /// A path whose byte length is chosen around the 512-byte threshold (or well beyond it) and
@@ -1770,8 +1772,8 @@ pub fn gen_step(rng: &mut Rng, cfg: &RunCfg, prop: Prop, kind: Kind, cur: &[u8])
 	}
 	match g.rng.weighted(&w) {
 		0 => {
-			let comp = *g.rng.pick(&[Comp::Scheme, Comp::Authority, Comp::Authority, Comp::Path, Comp::Path, Comp::Path, Comp::Query, Comp::Fragment]);
-			let remove = g.rng.chance(1, 4);
+			let comp = *g.rng.pick(&[Comp::Scheme, Comp::Scheme, Comp::Authority, Comp::Authority, Comp::Path, Comp::Path, Comp::Path, Comp::Query, Comp::Fragment]);
+			let remove = g.rng.chance(1, if comp == Comp::Scheme { 2 } else { 4 });
 			match comp {
 				Comp::Scheme => {
 					if remove && !kind.needs_scheme() {
